@@ -42,7 +42,8 @@ def task(rng, i, form, inp, timing, stages, cancel=None, compose=False, line=Non
          # input's exception is an instance of a CancelledError subclass (a failure, not a cancellation)
          "proxy_input": bool(form == 1 and rng.random() < 0.25),
          "orig_cancelled_error": bool(inp == 1 and rng.random() < 0.25),
-         "in_except": rng.random() < 0.25}
+         "in_except": rng.random() < 0.25,
+         "fn_shape": rng.choice([None, None, None, "partial", "object"])}
     # the input fails with an exception deriving from BaseException only; not combined with an error_fn that re-raises
     # it (an exception of that kind raised by USER code is not contained by anybody, the stdlib included) nor with the
     # executor form (where the scripted callable itself would raise it on a worker)
